@@ -90,6 +90,11 @@ def universe():
     add('shape-vec3', 'g[0]*u*v*dx', 'shape', args={'g': ['field', [3], True]})
     add('shape-mat', 'g[0,0]*u*v*dx', 'shape', args={'g': ['field', [2, 2], True]})
     add('shape-mat01', 'g[0,1]*u*v*dx', 'shape', args={'g': ['field', [2, 2], True]})
+    # products of non-square matrices (wide and tall left factors)
+    add('mm-wide', 'tr(dot(B.T,B))*u*v*dx', 'shape', args={'B': ['field', [3, 2], True]})
+    add('mm-tall', 'tr(dot(B,B.T))*u*v*dx', 'shape', args={'B': ['field', [3, 2], True]})
+    add('mm-wide-grad', 'inner(dot(dot(B.T,B),grad(u)),grad(v))*dx', 'shape', args={'B': ['field', [3, 2], True]})
+    add('mm-23-32', 'dot(C,B)[0,1]*u*v*dx', 'shape', args={'B': ['field', [3, 2], True], 'C': ['field', [2, 3], True]})
     add('shape-scalar', 'g*u*v*dx', 'shape', args={'g': ['field', [], True]})
     add('pshape-vec', 'c[0]*u*v*dx', 'shape', args={'c': ['param', [2]]})
     add('pshape-vec3', 'c[0]*u*v*dx', 'shape', args={'c': ['param', [3]]})
